@@ -14,6 +14,8 @@ pub mod c14;
 #[cfg(kani)]
 pub mod c15;
 #[cfg(kani)]
+pub mod c18;
+#[cfg(kani)]
 pub mod c19;
 #[cfg(kani)]
 mod playback_gen;
